@@ -89,6 +89,24 @@ func inspectCmd(args []string) error {
 				tr.emit(inspectEvent("short", []byte{byte(rng.Intn(256)), byte(rng.Intn(256))}))
 			}
 		}
+		// long pushes on the PUSHDATA1 / PUSHDATA2 boundary (254, 255, 256 bytes), bare and inside data carriers,
+		// complete and one byte short
+		for _, l := range []int{254, 255, 256} {
+			d := randBytes(rng, l)
+			var forms [][]byte
+			if l <= 255 {
+				forms = append(forms, append([]byte{0x4c, byte(l)}, d...))
+			}
+			forms = append(forms, append([]byte{0x4d, byte(l), byte(l >> 8)}, d...))
+			for _, f := range forms {
+				for _, pre := range [][]byte{{}, {0x6a}, {0x00, 0x6a}, {0x51}} {
+					sc := append(append([]byte{}, pre...), f...)
+					tr.emit(inspectEvent("longpush", sc))
+					tr.emit(inspectEvent("longpush", sc[:len(sc)-1]))
+					tr.emit(inspectEvent("longpush", append(sc, 0xae)))
+				}
+			}
+		}
 		alpha := []byte{0x00, 0x01, 0x02, 0x14, 0x21, 0x41, 0x4c, 0x4d, 0x4e, 0x4f, 0x51, 0x52, 0x60, 0x63, 0x68, 0x6a, 0x76, 0x87, 0x88, 0xa9, 0xac, 0xae, 0xff}
 		for i := 0; i < *n; i++ {
 			l := 3 + rng.Intn(6)
